@@ -13,9 +13,22 @@ Theorem C08_content_determines : forall a b, wf a -> wf b -> bits_of a = bits_of
   (forall i, st_getindex a i = st_getindex b i) /\ st_invert a = st_invert b /\
   (forall c, st_add a c = st_add b c) /\ raw (st_copy a) = raw (st_copy b).
 Proof. exact content_determines. Qed.
+(* the methods that consult modified_length (slicing with and without a step, tobytes) too: on a well-formed
+   store they are the Python slice / the bytes of the content (false before fix D40: s[::-1] was empty) *)
+Theorem C08_slices_depend_on_content_only : forall s k, wf s ->
+  st_getslice_withstep_msb0 s k = seq_slice false (bits_of s) k.
+Proof. exact getslice_withstep_content. Qed.
+Theorem C08_unit_slices_depend_on_content_only : forall s a b, wf s ->
+  st_getslice_msb0 s a b = seq_slice false (bits_of s) (mkslice a b None).
+Proof. exact getslice_content. Qed.
+Theorem C08_tobytes_depends_on_content_only : forall s, wf s -> st_tobytes s = tobytes (bits_of s).
+Proof. exact tobytes_content. Qed.
 (* the pinned tree violated this: a length-limited file store was not well formed *)
 Example C08_pre_fix_store_not_wf : ~ wf (mkstore [true;true;false;false] (Some 2)).
 Proof. unfold wf. cbn. discriminate. Qed.
 Print Assumptions C08_file_routes_well_formed.
 Print Assumptions C08_file_window_is_its_bits.
 Print Assumptions C08_content_determines.
+Print Assumptions C08_slices_depend_on_content_only.
+Print Assumptions C08_unit_slices_depend_on_content_only.
+Print Assumptions C08_tobytes_depends_on_content_only.
